@@ -60,6 +60,8 @@ type checker struct {
 	knownKs string
 	workers int
 	t0      time.Time
+
+	distinctAtFailure int
 }
 
 func envInt(name string, def int64) int64 {
@@ -352,6 +354,7 @@ func (c *checker) run() int {
 		}
 	}
 	if failure != nil {
+		c.distinctAtFailure = len(sigs)
 		return c.handleFailure(failure, agg)
 	}
 	for _, k := range sortedHitKeys(knownHits) {
@@ -500,7 +503,7 @@ func (c *checker) handleFailure(t *kit.Trace, agg *kit.Stats) int {
 		agg = kit.NewStats()
 		agg.Runs = 1
 	}
-	_ = c.writeEvidence(agg, 0, 0, []*kit.Trace{fin.Trace}, nil, nil, 1, final)
+	_ = c.writeEvidence(agg, c.distinctAtFailure, 0, []*kit.Trace{fin.Trace}, nil, nil, 1, final)
 	fmt.Printf("VIOLATION property=%s replay=%s\n", c.id, final)
 	return 1
 }
